@@ -440,16 +440,35 @@ func (r *vrRun) step(i int, st vlStep) {
 			r.note(i, st, "nothing to deliver")
 			return
 		}
-		select {
-		case <-r.stream.arrived:
-		case <-time.After(vrLong):
-			r.t.Fatalf("step %d %v: etcd did not send the pending event", i, st)
+		// one WatchResponse carrying the events of n consecutive revisions, in order (what a watcher that is catching up gets)
+		n := st.N
+		if n < 1 {
+			n = 1
 		}
-		r.stream.mu.Lock()
-		resp := r.stream.queue[0]
-		r.stream.queue = r.stream.queue[1:]
-		r.stream.mu.Unlock()
-		// hand over one revision; the empty response after it is received only when the first one has been applied
+		if n > r.pending() {
+			n = r.pending()
+		}
+		var resp clientv3.WatchResponse
+		for j := 0; j < n; j++ {
+			select {
+			case <-r.stream.arrived:
+			case <-time.After(vrLong):
+				r.t.Fatalf("step %d %v: etcd did not send the pending event", i, st)
+			}
+			r.stream.mu.Lock()
+			one := r.stream.queue[0]
+			r.stream.queue = r.stream.queue[1:]
+			r.stream.mu.Unlock()
+			if j == 0 {
+				resp = one
+				resp.Events = append([]*clientv3.Event{}, one.Events...)
+			} else {
+				resp.Header = one.Header
+				resp.Events = append(resp.Events, one.Events...)
+			}
+		}
+		line["n"] = n
+		// hand it over; the empty response after it is received only when the first one has been applied
 		for _, x := range []clientv3.WatchResponse{resp, {}} {
 			select {
 			case r.stream.out <- x:
@@ -457,7 +476,7 @@ func (r *vrRun) step(i int, st vlStep) {
 				r.t.Fatalf("step %d %v: router does not read its watch channel", i, st)
 			}
 		}
-		r.last = resp.Events[0].Kv.ModRevision
+		r.last = resp.Events[len(resp.Events)-1].Kv.ModRevision
 		line["evrev"] = r.last - r.base
 		for _, ev := range resp.Events {
 			for _, k := range r.keys {
